@@ -210,6 +210,9 @@ func (c13) Gen(rng *rand.Rand, tier string, k int) *Case {
 	}
 	if rng.Intn(5) == 0 {
 		c.Delay = 2 // number of consecutive runs on the same Backtest/report (field reused)
+		if rng.Intn(2) == 0 {
+			c.Param = append(c.Param, 5+rng.Intn(40)) // the second run looks back another number of days
+		}
 	}
 	for i := range c.Assets {
 		if c.Assets[i].SrcN >= 2 && rng.Intn(8) == 0 {
@@ -329,6 +332,7 @@ func (c13) Run(c *Case, st *Stats) []Violation {
 			since := now.AddDate(0, 0, -lastDays)
 			today := now.Truncate(24 * 3600 * 1e9)
 			repo := asset.NewInMemoryRepository()
+			allByName := map[string][]*asset.Snapshot{}
 			for _, a := range c.Assets {
 				if a.SrcAbsent {
 					continue
@@ -343,6 +347,7 @@ func (c13) Run(c *Case, st *Stats) []Violation {
 					return
 				}
 				present[a.Name] = true
+				allByName[a.Name] = all
 				for _, sn := range all {
 					if !sn.Date.Before(since) {
 						windowed[a.Name] = append(windowed[a.Name], sn)
@@ -413,6 +418,20 @@ func (c13) Run(c *Case, st *Stats) []Violation {
 					rec.mu.Lock()
 					rec.Events = nil
 					rec.mu.Unlock()
+				}
+				if len(c.Param) > 1 {
+					// the caller changes the look-back between the runs: the second run's window is the new one
+					bt.LastDays = c.Param[1]
+					since2 := now.AddDate(0, 0, -c.Param[1])
+					for n, all := range allByName {
+						windowed[n] = nil
+						for _, sn := range all {
+							if !sn.Date.Before(since2) {
+								windowed[n] = append(windowed[n], sn)
+							}
+						}
+					}
+					st.Probes["second-run-with-another-look-back"]++
 				}
 				runErr = bt.Run()
 				st.Probes["second-run-on-the-same-backtest-and-report"]++
